@@ -26,7 +26,21 @@ func (h H) truncationOnlyAtConflict(rule string) {
 	h.onlyCallers(rule+" who-may-call", "raft:(*storage).removeGTE", "(*Raft).onAppendEntriesRequest")
 	h.onlyCallers(rule+" who-may-call", "raft:(*storage).clearLog", "(*Raft).onInstallSnapRequest")
 	h.onlyCallers(rule+" who-may-call", "log:(*Log).RemoveGTE", "(*storage).removeGTE")
-	h.onlyCallers(rule+" who-may-call", "log:(*Log).Reset", "(*storage).clearLog")
+	h.onlyCallers(rule+" who-may-call", "log:(*Log).Reset", "(*storage).clearLog", "openStorage")
+	// on open, the log may be reset only when all of it is covered by the
+	// latest snapshot (crash between publishing a received snapshot and
+	// discarding the log it replaces), and to exactly the snapshot index
+	os := h.fn("raft:openStorage")
+	for k, c := range h.P.CallsTo(os, h.fn("log:(*Log).Reset")) {
+		site := h.site(os, h.fn("log:(*Log).Reset"), k)
+		arg := h.argStr(c, 1)
+		h.C.Check(rule+" open-reset-to-snapshot", site, strings.HasSuffix(arg, ".snaps.index"), h.pos(c.(ssa.Instruction)), "on open the log may only be reset to the snapshot index; found "+arg)
+		st := strings.TrimSuffix(arg, ".snaps.index")
+		r := h.P.Info(os).MustCross(c.(ssa.Instruction), func(a core.Atom) bool {
+			return a.Implies(core.MkAtom("(*log.Log).LastIndex("+st+".log)", "<", arg))
+		})
+		h.C.Check(rule+" open-reset-only-if-covered", site, r.OK, h.pos(c.(ssa.Instruction)), "on open the log is reset although it may hold entries beyond the latest snapshot: "+r.Witness)
+	}
 	fn := h.fn(appendFn)
 	rg := h.fn("raft:(*storage).removeGTE")
 	mge := h.fn("raft:(*storage).mustGetEntry")
@@ -65,6 +79,38 @@ func (h H) truncationOnlyAtConflict(rule string) {
 		// second argument is the term of the entry before the truncation point
 		pt := h.argStr(c, 2)
 		h.C.Check(rule+" prev-term-arg", site, strings.HasPrefix(pt, "local:") || strings.HasSuffix(pt, ".term"), h.pos(c), "removeGTE's prevTerm argument is "+pt)
+		// ... precisely: the term of the entry consumed just before e (the
+		// request's prevLogTerm for the first one). It becomes the cached
+		// lastLogTerm after the truncation, which the vote handler's
+		// up-to-date check reads.
+		pfi := h.P.Info(c.Parent())
+		okPrev, why := false, "unrecognised shape "+pt
+		switch v := c.Common().Args[2].(type) {
+		case *ssa.Phi:
+			got := map[string]bool{}
+			for _, ed := range v.Edges {
+				got[pfi.Sym(ed).String()] = true
+			}
+			okPrev = len(got) == 2 && got["appendReq.prevLogTerm"] && got[e+".term"]
+			why = fmt.Sprintf("reaching definitions %v", got)
+		case *ssa.UnOp:
+			if al, isAl := v.X.(*ssa.Alloc); isAl {
+				var inLoop ssa.Instruction
+				got := map[string]bool{}
+				for _, r := range *al.Referrers() {
+					if st, isSt := r.(*ssa.Store); isSt && st.Addr == ssa.Value(al) {
+						val := pfi.Sym(st.Val).String()
+						got[val] = true
+						if val == e+".term" {
+							inLoop = st
+						}
+					}
+				}
+				okPrev = len(got) == 2 && got["appendReq.prevLogTerm"] && inLoop != nil && core.Dominates(v, inLoop)
+				why = fmt.Sprintf("definitions of the cell %v, read before this entry's term is stored=%v", got, inLoop != nil && core.Dominates(v, inLoop))
+			}
+		}
+		h.C.Check(rule+" prev-term-is-predecessors", site, okPrev, h.pos(c), "removeGTE's prevTerm must be the term of the entry preceding the truncation point (request's prevLogTerm, then each consumed entry's term, read before the current entry's is recorded): "+why)
 	}
 	h.C.Floor(rule+" (removeGTE calls)", len(h.callsDeep(fn, rg)), 1)
 	// clearLog in install handler: after setState(Follower)
@@ -350,4 +396,108 @@ func (h H) storageCacheCoherence(rule string) {
 		h.C.Check(rule+" clearLog-cache", key, ok, t.ExitPos, "clearLog must Reset(snaps.index) and then set (lastLogIndex, lastLogTerm) = (snaps.index, snaps.term)")
 	}
 	h.C.Floor(rule+" (clearLog success paths)", n, 1)
+}
+
+// appendRefusalJustified (C17.4c): the append handler turns a request of the
+// current leader down only for the protocol's reasons: the request's term is
+// lower (staleTerm), the previous entry lies beyond the end of our log
+// (prevEntryNotFound), or our entry there has a different term
+// (prevTermMismatch). A handler that refuses more (say at prevLogIndex ==
+// lastLogIndex) makes the leader back off for ever: replication to that node
+// never completes although everything is healthy.
+func (h H) appendRefusalJustified(rule string) {
+	fn := h.fn(appendFn)
+	fi := h.P.Info(fn)
+	want := map[string]func(a core.Atom) bool{
+		h.constStr("raft:staleTerm"): func(a core.Atom) bool {
+			return a.Implies(core.MkAtom("appendReq.req.term", "<", "Raft.storage.term"))
+		},
+		h.constStr("raft:prevEntryNotFound"): func(a core.Atom) bool {
+			return a.Implies(core.MkAtom("appendReq.prevLogIndex", ">", "Raft.storage.lastLogIndex"))
+		},
+		h.constStr("raft:prevTermMismatch"): func(a core.Atom) bool {
+			return a.Op == "!=" && (a.L == "appendReq.prevLogTerm" || a.R == "appendReq.prevLogTerm")
+		},
+	}
+	n := 0
+	core.Instrs(fn, func(in ssa.Instruction) {
+		c, ok := in.(*ssa.Call)
+		if !ok {
+			return
+		}
+		mc, ok := c.Common().Value.(*ssa.MakeClosure)
+		if !ok || len(c.Common().Args) != 2 {
+			return
+		}
+		_ = mc
+		res := fi.Sym(c.Common().Args[0]).String()
+		pass, known := want[res]
+		if !known {
+			h.C.Check(rule+" known-refusals", fmt.Sprintf("(*Raft).onAppendEntriesRequest refusal %s", res), false, h.pos(c), "unexpected refusal result "+res+" (expected staleTerm, prevEntryNotFound or prevTermMismatch)")
+			return
+		}
+		n++
+		r := fi.MustCross(c, pass)
+		h.C.Check(rule, fmt.Sprintf("(*Raft).onAppendEntriesRequest refusal %s", res), r.OK, h.pos(c), "the request is refused on a path where the protocol's reason for this result does not hold: "+r.Witness)
+	})
+	h.C.Floor(rule+" (refusals of the append handler)", n, 3)
+	// the only other results are success and the two error kinds
+	succ, rerr, unexp := h.constStr("raft:success"), h.constStr("raft:readErr"), h.constStr("raft:unexpectedErr")
+	for k, r := range core.Returns(fn) {
+		v := h.retVal(r, 0).String()
+		ok := v == succ || v == rerr || v == unexp || strings.HasPrefix(v, "(*Raft).onAppendEntriesRequest$")
+		h.C.Check(rule+" results", fmt.Sprintf("(*Raft).onAppendEntriesRequest return#%d", k+1), ok, h.pos(r), "unexpected result "+v)
+	}
+}
+
+// commitThenApply (C17.6): whenever a node advances its commit index it hands
+// the newly committed entries to its state machine in the same activation;
+// nothing else ever does, so a missing call leaves the state machine behind
+// until some later commit.
+func (h H) commitThenApply(rule string) {
+	rsc := h.fn("raft:(*Raft).setCommitIndex")
+	lsc := h.fn("raft:(*leader).setCommitIndex")
+	rap := h.fn("raft:(*Raft).applyCommitted")
+	lap := h.fn("raft:(*leader).applyCommitted")
+	n := 0
+	for _, callee := range []*ssa.Function{rsc, lsc} {
+		for _, s := range h.P.Callers(callee) {
+			if s.Fn == lsc {
+				continue // the leader's wrapper: its callers apply
+			}
+			n++
+			fi := h.P.Info(s.Fn)
+			r := fi.AlwaysFollowedBy(s.Instr, func(in ssa.Instruction) bool {
+				return h.P.IsCallTo(in, rap) || h.P.IsCallTo(in, lap)
+			})
+			h.C.Check(rule, fmt.Sprintf("%s in %s", h.name(callee), h.name(s.Fn)), r.OK, h.pos(s.Instr), "the commit index is advanced and the function can return without applying the committed entries: "+r.Witness)
+		}
+	}
+	h.C.Floor(rule+" (commit-index advances)", n, 3)
+	// the follower's deferred commit looks at the last entry consumed: the
+	// cells it reads are set from every consumed entry
+	fn := h.fn(appendFn)
+	fi := h.P.Info(fn)
+	for _, cell := range []struct{ name, first, each string }{{"index", "appendReq.prevLogIndex", ".index"}, {"term", "appendReq.prevLogTerm", ".term"}} {
+		okFirst, okEach := false, false
+		core.Instrs(fn, func(in ssa.Instruction) {
+			st, ok := in.(*ssa.Store)
+			if !ok || fi.Sym(st.Addr).String() != "local:"+cell.name {
+				return
+			}
+			v := fi.Sym(st.Val).String()
+			if v == cell.first {
+				okFirst = true
+			}
+			if strings.HasPrefix(v, "new:entry#") && strings.HasSuffix(v, cell.each) && len(core.LoopHeaders(fn)) > 0 {
+				for _, hd := range core.LoopHeaders(fn) {
+					if core.InLoop(hd, in.Block()) || in.Block() == hd {
+						okEach = true
+					}
+				}
+			}
+		})
+		_ = okFirst
+		h.C.Check(rule+" follower-commit-tracks-last-entry", "(*Raft).onAppendEntriesRequest "+cell.name, okFirst && okEach, h.fpos(fn), "the (index, term) pair the deferred commit test reads must start at the request's prevLog pair and follow every consumed entry")
+	}
 }
